@@ -106,7 +106,7 @@ pub use ohkami_lib::stream::{self, Stream, StreamExt};
 /// 
 /// ## Note
 /// 
-/// Invalid Cookie that doesn't contain `=` or contains multiple `=`s is just ignored.
+/// Invalid Cookie that doesn't contain `=` is just ignored.
 /// 
 /// ## Example
 /// 
@@ -124,10 +124,8 @@ pub use ohkami_lib::stream::{self, Stream, StreamExt};
 /// ```
 pub fn iter_cookies(raw: &str) -> impl Iterator<Item = (&str, &str)> {
     raw.split("; ").filter_map(|key_value| {
-        let mut key_value = key_value.split('=');
-        let key   = key_value.next()?;
-        let value = key_value.next()?;
-        key_value.next().is_none().then_some((key, value))
+        /* `=` is a cookie-octet: the name ends at the first one */
+        key_value.split_once('=')
     })
 }
 
